@@ -425,7 +425,7 @@ class LockAnalysis:
         return [k for k, n in self.names.items() if n.endswith(suffix)]
 
 
-def ret_cases(fn):
+def ret_cases(fn, maxdepth=8):
     """[(value_ref, anchor_inst)] : each way a value can be returned; for phi
     return values the anchor is the terminator of the incoming block"""
     out = []
@@ -434,12 +434,12 @@ def ret_cases(fn):
         ins = fn.get(val) if isinstance(val, str) else None
         if ins is not None and ins.op == 'phi' and len(ins.d['incoming']) == 1 and depth < 12:
             expand(ins.d['incoming'][0][0], anchor, depth + 1)  # lcssa / single-predecessor phi: same point
-        elif ins is not None and ins.op == 'phi' and depth < 8 and \
+        elif ins is not None and ins.op == 'phi' and depth < maxdepth and \
                 not any(l['header'] == ins.block.id for l in fn.loops):
             for v, b in ins.d['incoming']:
                 expand(v, EdgePoint(fn, b, ins.block.id), depth + 1)
-        elif ins is not None and ins.op in ('zext', 'sext', 'trunc') and depth < 8:
-            expand(ins.ops[0], anchor, depth + 1)
+        elif ins is not None and ins.op in ('zext', 'sext', 'trunc') and depth < 12:
+            expand(ins.ops[0], anchor, depth)
         elif ins is not None and ins.op == 'select' and depth < 8:
             expand(ins.ops[1], anchor, depth + 1)
             expand(ins.ops[2], anchor, depth + 1)
